@@ -11,11 +11,13 @@ from .registry import replayer, run_native
 SCENARIOS = [
     (r'EventBus\.dispatch/ensures:(never_own_parent|parent_|no_parent|explicit_parent)', 'rp_dispatch_own_parent.py'),
     (r'EventBus\.dispatch/ensures:(child_once|only_that_handlers_children|children_only)', 'rp_dispatch_child_twice.py'),
+    (r'EventBus\.dispatch/ensures:(child_once|only_that_handlers_children|children_only|path_|same_object)', 'rp_dispatch_family.py'),
     (r'EventBus\.dispatch/(raises:.*:(children_unchanged|history_unchanged|queue_unchanged)|ensures:enqueued)', 'rp_dispatch_reject_children.py'),
     (r'EventBus\._run_loop/callsite:step/requires:root_context|ReentrantLock\.|EventBus\.step/exit:lock_released', 'rp_lock_inherited.py'),
     (r'EventBus\._get_next_event/raises:cancel_not_swallowed|EventBus\._run_loop/callsite:step/requires:not_after_cancel', 'rp_exit_with_running_bus.py'),
     (r'EventBus\.step/.*task_done|EventBus\.step/inv.*queue_accounting', 'rp_idle_after_fault.py'),
     (r'EventBus\.process_event/raises:only_declared', 'rp_recursion_guard_hang.py'),
+    (r'EventBus\.(_would_create_loop/(ensures|raises:recursion_guard)|execute_handler/raises:already_started|_get_applicable_handlers/ensures)', 'rp_redispatch_runs_once.py'),
     (r'EventBus\._execute_handlers/raises:cancellederror_only_if_task_cancelled', 'rp_handler_raises_cancelled.py'),
     (r'EventBus\._execute_handlers/(ensures:no_handler_task_left_running|loop#\d+:.*(awaited_so_far_are_done|every_task_is_remembered|one_task_per_handler))', 'rp_parallel_sibling_running.py'),
     (r'EventBus\.process_event/callsite:event_result_update\\(pending\\)', 'rp_forward_completion_regress.py'),
@@ -24,9 +26,15 @@ SCENARIOS = [
     (r'__await__\.wait/callsite:process_event/requires:inline_bus_is_running', 'rp_stop_then_inline.py'),
     (r'__await__\.wait/(exit:every_taken_event_is_task_done|loop.*nothing_in_hand)', 'rp_timeout_inline_accounting.py'),
     (r'__await__\.wait/callsite:process_event/requires:inline_target', 'rp_await_runs_unrelated.py'),
+    (r'__await__\.wait/(loop#\d+:.*awaited_event_not_complete_yet|callsite:get_nowait/requires:stops_draining)', 'rp_await_drains_after_completion.py'),
     (r'__await__\.wait/ensures:complete_at_return_inside_handlers', 'rp_await_gives_up.py'),
+    (r'__await__\.wait/callsite:event_completed_signal\.wait/requires:no_blocking_wait', 'rp_await_done_child_with_queued_descendant.py'),
     (r'__await__\.wait/callsite:get_nowait/requires', 'rp_fifo_inversion.py'),
     (r'BaseEvent\.event_bus/ensures', 'rp_event_bus_after_forward.py'),
+    (r'BaseEvent\.event_cancel_pending_child_processing/', 'rp_cancel_walk_family.py'),
+    (r'BaseEvent\.(event_are_all_children_complete|event_mark_complete_if_all_handlers_completed)/', 'rp_completion_descendants.py'),
+    (r'event_results_by_handler_name/safety:dictcomp_keys_distinct', 'rp_by_handler_name_duplicates.py'),
+    (r'BaseEvent\.(event_results_filtered|event_results_by_handler_id|event_results_list|event_result)/(ensures:|raises:requested_raise)', 'rp_accessor_family.py'),
     (r'process_event/ensures:completion_propagated', 'rp_evicted_parent_never_completes.py'),
     (r'semaphore\.acquire/requires:cached_semaphore', 'rp_semaphore_across_loops.py'),
     (r'helpers\._execute_with_retries/', 'rp_retry_family.py'),
